@@ -317,7 +317,15 @@ fn case_seq(parts: &[&str]) -> String {
                 let r = if id < 0 || id >= nv {
                     Err(())
                 } else if via_position {
-                    catch(|| UnsafeBufferPosition::new(v_buf, id as i32).set_ordered(v as i64))
+                    // the position is first bound to another slot and then re-bound (`wrap`) to the one it has to write
+                    catch(|| {
+                        let target = UnsafeBufferPosition::new(v_buf, id as i32);
+                        let mut p = UnsafeBufferPosition::new(v_buf, ((id + 1) % nv) as i32);
+                        p.wrap(&target);
+                        assert_eq!(p.id(), id as i32);
+                        p.set_ordered(v as i64);
+                        assert_eq!(p.get_volatile(), v as i64);
+                    })
                 } else {
                     catch(|| mgr.set_counter_value(id as i32, v))
                 };
